@@ -164,6 +164,8 @@ def classify(x, flavour):
             kind = "accepted"
         else:
             kind = "valid-request-not-served"
+    elif e == "Early":
+        kind = "answered-before-complete"
     elif e == "Probe":
         kind = "probe-failed"
     elif e == "Late":
